@@ -21,6 +21,14 @@ const (
 type importChain struct {
 	key    string
 	parent *importChain
+	// caller is shared by all links of one chain of calls.
+	caller *importCaller
+}
+
+// importCaller records which add a chain of calls is currently waiting for.
+// It is guarded by the mutex of the cache.
+type importCaller struct {
+	waitingFor *importChain
 }
 
 // it is a simple cache component used by import behavior, and it can make cache code simple
@@ -28,6 +36,9 @@ type importCache struct {
 	mutex sync.Mutex
 	cond  *sync.Cond
 	cache map[string]rel.Expr
+	// adding tells which chain of calls is computing the value of a key that
+	// is marked as being added in cache.
+	adding map[string]*importChain
 }
 
 // WithNewImportCache adds an empty cache to the context.
@@ -53,28 +64,44 @@ func GetOrAddFromCache(ctx context.Context, key string, add func() (rel.Expr, er
 // GetOrAddFromCacheCtx is like GetOrAddFromCache, but add receives a context
 // that remembers that the value for key is being computed. If key is requested
 // again while computing its own value (an import cycle), an error is returned
-// instead of waiting forever for a value that can never arrive. Requests for
-// the same key from unrelated callers still wait for the value as usual.
+// instead of waiting forever for a value that can never arrive. The same holds
+// when the cycle is closed through other goroutines that share the cache and
+// wait for each other's keys. Requests for a key that is being added by an
+// unrelated caller still wait for the value as usual.
 func GetOrAddFromCacheCtx(
 	ctx context.Context,
 	key string,
 	add func(ctx context.Context) (rel.Expr, error),
 ) (rel.Expr, error) {
+	service := fromCache(ctx)
+	if service == nil {
+		panic("GetOrAddFromCacheCtx: cache not in context")
+	}
 	chain, _ := ctx.Value(importChainKey).(*importChain)
 	for c := chain; c != nil; c = c.parent {
 		if c.key == key {
-			return nil, importCycleError(chain, key)
+			return nil, importCycleError(chain, c, key, false)
 		}
 	}
-	ctx = context.WithValue(ctx, importChainKey, &importChain{key: key, parent: chain})
-	return GetOrAddFromCache(ctx, key, func() (rel.Expr, error) { return add(ctx) })
+	link := &importChain{key: key, parent: chain}
+	if chain != nil {
+		link.caller = chain.caller
+	} else {
+		link.caller = &importCaller{}
+	}
+	ctx = context.WithValue(ctx, importChainKey, link)
+	return service.getOrAddLink(link, key, func() (rel.Expr, error) { return add(ctx) })
 }
 
-func importCycleError(chain *importChain, key string) error {
+// importCycleError reports the cycle chain[from] -> ... -> chain[innermost] -> key.
+func importCycleError(chain, from *importChain, key string, indirect bool) error {
 	keys := []string{key}
+	if indirect {
+		keys = []string{from.key, "...", key}
+	}
 	for c := chain; c != nil; c = c.parent {
 		keys = append(keys, c.key)
-		if c.key == key {
+		if c == from {
 			break
 		}
 	}
@@ -84,8 +111,23 @@ func importCycleError(chain *importChain, key string) error {
 	return fmt.Errorf("import cycle not allowed: %s", strings.Join(keys, " -> "))
 }
 
+// checkWait returns an error if link's caller must not wait for owner to
+// finish, because owner's caller is waiting, directly or through further
+// callers, for a key that link's own caller is adding. An add that is no longer
+// registered has finished and its waiters are about to carry on. The mutex
+// must be held.
+func (service *importCache) checkWait(link, owner *importChain, key string) error {
+	for o, hops := owner, 0; o != nil && service.adding[o.key] == o && hops < 1<<16; hops++ {
+		if o.caller == link.caller {
+			return importCycleError(link.parent, o, key, o != owner)
+		}
+		o = o.caller.waitingFor
+	}
+	return nil
+}
+
 func newImportCache() *importCache {
-	c := &importCache{cache: map[string]rel.Expr{}}
+	c := &importCache{cache: map[string]rel.Expr{}, adding: map[string]*importChain{}}
 	c.cond = sync.NewCond(&c.mutex)
 	return c
 }
@@ -103,6 +145,16 @@ func fromCache(ctx context.Context) *importCache {
 // goroutine is currently computing a value for key, this goroutine will wait
 // till it's ready.
 func (service *importCache) getOrAdd(key string, add func() (rel.Expr, error)) (rel.Expr, error) {
+	return service.getOrAddLink(nil, key, add)
+}
+
+// getOrAddLink is getOrAdd on behalf of link, the innermost link of the
+// caller's chain (nil if the caller does not track one).
+func (service *importCache) getOrAddLink(
+	link *importChain,
+	key string,
+	add func() (rel.Expr, error),
+) (rel.Expr, error) {
 	adding := false
 
 	service.mutex.Lock()
@@ -112,6 +164,7 @@ func (service *importCache) getOrAdd(key string, add func() (rel.Expr, error)) (
 			// cache so someone else can have a go.
 			service.mutex.Lock()
 			delete(service.cache, key)
+			delete(service.adding, key)
 			// Wake up whoever is waiting for this key, otherwise they'd
 			// wait forever for a value that will never be stored.
 			service.cond.Broadcast()
@@ -125,7 +178,17 @@ func (service *importCache) getOrAdd(key string, add func() (rel.Expr, error)) (
 				return val, nil
 			}
 			// Another goroutine is adding an entry.
+			if link != nil {
+				owner := service.adding[key]
+				if err := service.checkWait(link, owner, key); err != nil {
+					return nil, err
+				}
+				link.caller.waitingFor = owner
+			}
 			service.cond.Wait()
+			if link != nil {
+				link.caller.waitingFor = nil
+			}
 		} else {
 			break
 		}
@@ -133,6 +196,9 @@ func (service *importCache) getOrAdd(key string, add func() (rel.Expr, error)) (
 
 	// Indicate that we'll add it.
 	service.cache[key] = nil
+	if link != nil {
+		service.adding[key] = link
+	}
 
 	// Free the lock while we work.
 	service.mutex.Unlock()
@@ -144,6 +210,7 @@ func (service *importCache) getOrAdd(key string, add func() (rel.Expr, error)) (
 	adding = false
 	service.mutex.Lock()
 
+	delete(service.adding, key)
 	if val != nil {
 		service.cache[key] = val
 	} else {
